@@ -117,6 +117,16 @@ def run(rep: Report) -> None:
                   key="use|invalid")
     scenario("use('no-such-engine') raises EngineNotFoundError and leaves the selection unchanged",
              lambda w: "no-such-engine", exp_bad)
+    # names that are not engines although they look like parts / combinations of engine names
+    for bad_name in ("", "num", "cas", "casadi, numpy", "NumPy", "numpy "):
+        def exp_bad2(label, w, before, outcome, cur, bad_name=bad_name):
+            ok = (outcome[0] == "raise" and outcome[1].exc.split(".")[-1] == "EngineNotFoundError"
+                  and w.current is before and cur is before and not w.stores)
+            rep.check(ok, "selection", label, where,
+                      f"after use({bad_name!r}): outcome {outcome[0]} {getattr(outcome[1], 'exc', outcome[1])!r}, "
+                      f"selection {'unchanged' if w.current is before else 'CHANGED'}", key=f"use|invalid|{bad_name}")
+        scenario(f"use({bad_name!r}) raises EngineNotFoundError and leaves the selection unchanged",
+                 lambda w, bad_name=bad_name: bad_name, exp_bad2)
 
     # what a caller does with the dict get_available_engines() handed out is the caller's business
     gae = prog.function("sym_metanet.engines.core", "get_available_engines")
